@@ -1,8 +1,8 @@
 use std::str::FromStr;
 
 use crate::errors::{Result, SvgdxError};
-use crate::position::BoundingBox;
 use crate::path::{PathSyntax, SvgPathSyntax};
+use crate::position::BoundingBox;
 
 impl BoundingBox {
     pub fn xfrm_scale(&self, sx: f32, sy: f32) -> Self {
